@@ -166,6 +166,16 @@ class H(Harness):
         return {'kind': 'ba', 'seed': rnd.randrange(1 << 30), 'N': N, 'M': rnd.randrange(1, N), 'limit': rnd.choice([None, 0, 1, 2, 3])}
 
     def gen_plc(self, rnd):
+        if rnd.random() < 0.3:
+            # every proposal accepted (rng.random() returns 0), proposals at the ceiling of the sampler (99) and at 1:
+            # the parity repair then works on nodes that already sit at the ceiling
+            c = {'kind': 'plc', 'seed': rnd.randrange(1 << 30), 'N': rnd.randrange(2, 13), 'exponent': rnd.choice([2, 2.5, 3]),
+                 'cutoff': rnd.choice([5, 10, 40]), 'accept_all': True,
+                 'ints': [rnd.choice([98, 98, 98, 0, 0, 1, 97]) for _ in range(400)]}
+            if rnd.random() < 0.15:
+                c['N'] = rnd.choice([3000, 5000])      # large and sparse: a node's stubs reach distinct neighbours (D only)
+                c['ints'] = [98, 98] + [rnd.choice([0, 1, 1, 2]) for _ in range(c['N'] - 3)] + [0 if rnd.random() < 0.5 else 1] + [0, 0, 1, 0, 1]
+            return c
         return {'kind': 'plc', 'seed': rnd.randrange(1 << 30), 'N': rnd.randrange(2, 13), 'exponent': rnd.choice([2, 2.5, 3]),
                 'cutoff': rnd.choice([2, 5, 10, 40]),
                 'ints': [rnd.choice([0, 0, 0, 1, 1, 2, 3, 5, 9, 98, 99, rnd.randrange(130)]) for _ in range(400)]}
@@ -228,8 +238,13 @@ class H(Harness):
         return c
 
     def gen_exp(self, rnd):
-        which = rnd.choice(['fixed', 'graph', 'er', 'ba', 'plc', 'cp', 'mod'])
-        return {'kind': 'exp', 'seed': rnd.randrange(1 << 30), 'which': which, 'N': rnd.randrange(3, 12)}
+        kinds = ['fixed', 'graph', 'er', 'ba', 'plc', 'cp', 'mod']
+        which = rnd.choice(kinds)
+        c = {'kind': 'exp', 'seed': rnd.randrange(1 << 30), 'which': which, 'N': rnd.randrange(3, 12)}
+        if rnd.random() < 0.5:
+            # further runs of the SAME experiment with the SAME parameter dictionary after setNetworkGenerator()
+            c['then'] = [rnd.choice(kinds) for _ in range(rnd.choice([1, 2]))]
+        return c
 
     def exhaustive_cases(self, tier):
         # quota: every program of length <= 4 (5 in thorough) over {set, mutate, generate, next}, limits None/0/1/2
@@ -357,7 +372,10 @@ class H(Harness):
         import epydemic.plc_generator as PM
         from epydemic import PLCNetwork
         import mpmath
-        orc = install(Oracle(seed=case['seed'], script={'integers': case['ints']}))
+        script = {'integers': case['ints']}
+        if case.get('accept_all'):
+            script['random'] = [0.0] * (len(case['ints']) + 8)
+        orc = install(Oracle(seed=case['seed'], script=script))
         rec = {}
         real_cm = PM.configuration_model
 
@@ -579,35 +597,48 @@ class H(Harness):
                               CorePeripheryNetwork as CP, ModularNetwork as MN)
         install(Oracle(seed=case['seed']))
         N = case['N']
-        w = case['which']
         params = {'unrelated': 1}
-        if w in ('fixed', 'graph'):
-            g = networkx.path_graph(N)
-            gen = FixedNetwork(g) if w == 'fixed' else g
-            want = 'Arbitrary'
-        elif w == 'er':
-            gen, want = ERNetwork(), 'ER'; params.update({ERNetwork.N: N, ERNetwork.PHI: 0.5})
-        elif w == 'ba':
-            gen, want = BANetwork(), 'BA'; params.update({BANetwork.N: N, BANetwork.M: 2})
-        elif w == 'plc':
-            gen, want = PLCNetwork(), 'PLC'; params.update({PLCNetwork.N: N, PLCNetwork.EXPONENT: 2, PLCNetwork.CUTOFF: 5})
-        elif w == 'cp':
-            gen, want = CP(), 'ER-core-periphery'; params.update({CP.N_core: N, CP.PHI_core: 0.5, CP.N_per: N, CP.PHI_per: 0.25})
-        else:
-            gen, want = MN(), 'ER-modular'; params.update({MN.N_core: N, MN.PHI_core: 0.5, MN.SATELLITES: 2, MN.N_sat: 3, MN.PHI_sat: 0.5})
+
+        def make(w):
+            if w in ('fixed', 'graph'):
+                g = networkx.path_graph(N)
+                return (FixedNetwork(g) if w == 'fixed' else g), 'Arbitrary', {}
+            if w == 'er':
+                return ERNetwork(), 'ER', {ERNetwork.N: N, ERNetwork.PHI: 0.5}
+            if w == 'ba':
+                return BANetwork(), 'BA', {BANetwork.N: N, BANetwork.M: 2}
+            if w == 'plc':
+                return PLCNetwork(), 'PLC', {PLCNetwork.N: N, PLCNetwork.EXPONENT: 2, PLCNetwork.CUTOFF: 5}
+            if w == 'cp':
+                return CP(), 'ER-core-periphery', {CP.N_core: N, CP.PHI_core: 0.5, CP.N_per: N, CP.PHI_per: 0.25}
+            return MN(), 'ER-modular', {MN.N_core: N, MN.PHI_core: 0.5, MN.SATELLITES: 2, MN.N_sat: 3, MN.PHI_sat: 0.5}
 
         class E(NetworkExperiment):
             def do(self, params):
                 return {'order': self.network().order()}
 
+        gen, want, extra = make(case['which'])
+        params.update(extra)
         e = E(gen)
         try:
             rc = e.set(params).run(fatal=True)
         except Exception as ex:      # observable
             return {'exception': type(ex).__name__ + ': ' + str(ex), 'want': want}
         ps = rc[epyc.Experiment.PARAMETERS]
-        return {'exception': None, 'recorded': ps.get(NetworkGenerator.TOPOLOGY), 'want': want,
-                'generator_says': e.networkGenerator().topology(), 'kept_params': ps.get('unrelated')}
+        out = {'exception': None, 'recorded': ps.get(NetworkGenerator.TOPOLOGY), 'want': want,
+               'generator_says': e.networkGenerator().topology(), 'kept_params': ps.get('unrelated'), 'then': []}
+        for w in case.get('then', []):
+            gen, want, extra = make(w)
+            params.update(extra)                   # the caller keeps using its own dictionary
+            e.setNetworkGenerator(gen)
+            try:
+                rc = e.set(params).run(fatal=True)
+                ps = rc[epyc.Experiment.PARAMETERS]
+                out['then'].append({'which': w, 'recorded': ps.get(NetworkGenerator.TOPOLOGY), 'want': want,
+                                    'generator_says': e.networkGenerator().topology()})
+            except Exception as ex:
+                out['then'].append({'which': w, 'exception': type(ex).__name__ + ': ' + str(ex), 'want': want})
+        return out
 
     # ------------------------------------------------------------------ D
     def direct(self, case, obs):
@@ -793,6 +824,11 @@ class H(Harness):
             v.append({'signature': 'topology-marker', 'detail': obs})
         if obs['kept_params'] != 1:
             v.append({'signature': 'experiment-parameters-lost', 'detail': obs})
+        for o in obs.get('then', []):
+            if o.get('exception'):
+                v.append({'signature': 'generate-raised', 'detail': o})
+            elif o['recorded'] != o['want'] or o['generator_says'] != o['want']:
+                v.append({'signature': 'topology-marker:after-setNetworkGenerator', 'detail': o})
         return v
 
     # ------------------------------------------------------------------ tie B
@@ -847,6 +883,8 @@ class H(Harness):
             evs = L.lst(['PK %s %s' % (L.nat(e[1]), L.q(e[2])) if e[0] == 'k' else 'PIdx %s' % L.nat(e[1]) for e in pl['evs']])
             return 'CPlc %s %s %s %s' % (L.lst(pl['ptab'], L.q), L.nat(pl['N']), evs, L.lst(pl['ns'], L.nat))
         if k == 'plc':
+            if case['N'] > 100:
+                return None            # the large sparse instances are for the direct oracle only
             if obs['exception'] or obs['ns'] is None:
                 return 'CPlc [] 0 [] [7%nat]'
             evs = L.lst(['PK %s %s' % (L.nat(e[1]), L.q(e[2])) if e[0] == 'k' else 'PIdx %s' % L.nat(e[1]) for e in obs['evs']])
